@@ -642,4 +642,91 @@ theorem printed_shape (p : Parts) (hs : Letters p.scheme) (hn : p.netloc ≠ [])
   refine ⟨p.netloc ++ p.path ++ (queryPart p.query ++ fragPart p.fragment), ?_⟩
   simp [schemePart, hs.1]
 
+
+/-! ## CPython's accessors (`Py/UrlAccessors.lean`: `.username .password .hostname .port`) on a
+netloc of the grammar -/
+
+theorem splitFirst_of_none {c : Char} {s : Str} (h : splitAtFirst c s = none) :
+    splitFirst s c = (s, none) :=
+  splitFirst_notMem_s20 s c (splitAtFirst_eq_none.mp h)
+
+theorem splitFirst_of_some {c : Char} {s a b : Str} (h : splitAtFirst c s = some (a, b)) :
+    splitFirst s c = (a, some b) := by
+  obtain ⟨e, hn⟩ := splitAtFirst_eq_some.mp h
+  rw [e]; exact splitFirst_append_sep_s20 a b c hn
+
+/-- `_hostinfo` before the `if not port` step, on `host[:port]` of the grammar -/
+theorem hostPortStr_grammar (host : Str) (op : Option Str) (hh : HostShape host)
+    (hp : ∀ port, op = some port → Plain port) :
+    hostPortStr (host ++ optPart ':' op) = (unbracket host, op.getD []) := by
+  unfold hostPortStr
+  rcases hh with ⟨inner, rfl, hi⟩ | hpl
+  · have hn : ']' ∉ inner := fun h => (hi _ h).2 rfl
+    have e : ('[' :: inner ++ [']'] ++ optPart ':' op) = '[' :: (inner ++ ']' :: optPart ':' op) := by simp
+    rw [e, splitFirst_cons_s20, if_pos rfl]
+    simp only [splitFirst_append_sep_s20 _ _ _ hn, Option.getD_some]
+    have hu : unbracket ('[' :: (inner ++ [']'])) = inner := by
+      have := unbracket_bracketed inner
+      simpa using this
+    cases op with
+    | none => simp [optPart, splitFirst_nil_s20, unbracket]
+    | some port => simp [optPart, splitFirst_cons_s20, unbracket]
+  · have hb : '[' ∉ host ++ optPart ':' op := by
+      intro hm
+      simp only [List.mem_append] at hm
+      rcases hm with hm | hm
+      · exact (hpl _ hm).2.1 rfl
+      · cases op with
+        | none => simp [optPart] at hm
+        | some port =>
+          simp only [optPart, List.mem_cons] at hm
+          rcases hm with hm | hm
+          · cases hm
+          · exact (hp port rfl _ hm).2.1 rfl
+    have hc : ':' ∉ host := fun h => (hpl _ h).1 rfl
+    rw [splitFirst_notMem_s20 _ _ hb]
+    simp only [unbracket_plain hpl]
+    cases op with
+    | none => simp [optPart, splitFirst_notMem_s20 _ _ hc]
+    | some port => simp [optPart, splitFirst_append_sep_s20 _ _ _ hc]
+
+/-- **the accessors of CPython's `SplitResult` on a netloc of the grammar** are the components
+of the grammar reading: `.username` / `.password` are what stems.py calls `user` / `password`,
+`_hostinfo` is the host without its brackets and the port (`None` when empty) -/
+theorem accessors_grammar {n : Str} (hwf : wfNetloc n = true) :
+    Py.username n = userOf n ∧ Py.password n = passwordOf n ∧
+    Py.hostinfo n = (unbracket (specHost n),
+      if (specPort n).getD [] = [] then none else some ((specPort n).getD [])) := by
+  obtain ⟨hat, _, hhp, hshape, hport⟩ := wfNetloc_shape hwf
+  have hhi : hostinfoStr n = hostportOf n ∧ Py.userinfo n = (userOf n, passwordOf n) := by
+    unfold hostinfoStr Py.userinfo userOf passwordOf
+    cases ha : authOf n with
+    | none =>
+      obtain ⟨e, hn⟩ := authOf_none ha
+      rw [splitLast_notMem _ _ hn]
+      simp [e]
+    | some auth =>
+      obtain ⟨e, _⟩ := netloc_of_authOf ha
+      have hs : splitLast n '@' = (some auth, hostportOf n) := by
+        conv => lhs; rw [e]
+        exact splitLast_append_sep _ _ _ hat
+      rw [hs]
+      simp only [Option.map_some, Option.bind_some, true_and]
+      unfold userOfAuth passwordOfAuth
+      cases hc : splitAtFirst ':' auth with
+      | none => rw [splitFirst_of_none hc]; rfl
+      | some ab =>
+        obtain ⟨a, b⟩ := ab
+        rw [splitFirst_of_some hc]; rfl
+  refine ⟨?_, ?_, ?_⟩
+  · unfold Py.username; rw [hhi.2]
+  · unfold Py.password; rw [hhi.2]
+  · unfold Py.hostinfo
+    rw [hhi.1, hhp, hostPortStr_grammar _ _ hshape hport]
+
+theorem lowerHost_of_no_percent {x : Str} (h : '%' ∉ x) : lowerHost x = Py.lower x := by
+  unfold lowerHost
+  rw [splitFirst_notMem_s20 _ _ h]
+  simp
+
 end Ural.LruString
